@@ -34,8 +34,7 @@ def run_thorough(ctx, repo_root):
         return
     sys.path.insert(0, str(VERIF / "selftest"))
     import run as selftest
-    from variants import VARIANTS
-    vs = [v for v in VARIANTS if ctx.prop in v["props"]]
+    vs = [v for v in selftest.load_variants() if ctx.prop in v["props"]]
     if not vs:
         return
     restricted = []
